@@ -425,3 +425,95 @@ def assigned_fields(n):
             if l.get("k") == "field":
                 out.append((l["name"], render(l["e"]), x["r"], x))
     return out
+
+
+# ---------------------------------------------------------------------------------------------------------------------
+# helper inlining: rules that read the *shape* of a function (an opcode arm of VM::run, a builtin's body) must see the
+# same thing whether a piece of it is written in place or was extracted into a small private helper
+# ---------------------------------------------------------------------------------------------------------------------
+def _size(n, cap=2000):
+    c = 0
+    for _ in walk(n):
+        c += 1
+        if c > cap:
+            break
+    return c
+
+
+def _simple_arg(a, depth=0):
+    """an argument expression that can be substituted for the parameter without changing what the body computes
+    (no side effects, cheap): paths, fields, constant indexes, refs/derefs, literals, as_ref/clone/borrow chains"""
+    a0 = a
+    if depth > 8 or not isinstance(a, dict):
+        return False
+    k = a.get("k")
+    if k in ("path", "lit"):
+        return True
+    if k in ("ref", "cast"):
+        return _simple_arg(a["e"], depth + 1)
+    if k == "un" and a.get("op") == "*":
+        return _simple_arg(a["e"], depth + 1)
+    if k == "field":
+        return _simple_arg(a["e"], depth + 1)
+    if k == "index":
+        return _simple_arg(a["e"], depth + 1) and _simple_arg(a["i"], depth + 1)
+    if k == "bin" and a.get("op") in ("+", "-", "*"):
+        return _simple_arg(a["l"], depth + 1) and _simple_arg(a["r"], depth + 1)
+    if k == "mcall" and a.get("m") in ("clone", "as_ref", "as_str", "borrow", "as_mut", "borrow_mut", "as_slice", "deref", "current_frame") and not a.get("args"):
+        return _simple_arg(a["recv"], depth + 1)
+    if k == "block" and not a.get("stmts") and a.get("expr") is not None:
+        return _simple_arg(a["expr"], depth + 1)
+    return False
+
+
+def _subst(n, env):
+    """deep copy of n with local paths whose id is in env replaced by (copies of) the mapped expressions"""
+    if isinstance(n, list):
+        return [_subst(x, env) for x in n]
+    if not isinstance(n, dict):
+        return n
+    if n.get("k") == "path" and n.get("res", {}).get("r") == "local" and n["res"].get("id") in env:
+        return env[n["res"]["id"]]
+    return {k: _subst(v, env) for k, v in n.items()}
+
+
+def inline_helpers(F, body, depth=3, max_size=260, skip=(), _stack=()):
+    """Copy of `body` in which every call of a function of the repository that is small (≤ max_size HIR nodes), has a
+    body, takes simple arguments and is not on the current inlining stack is replaced by
+        {"k": "block", "inlined": <callee path>, "stmts": [let p = arg for non-simple args], "expr": <callee body, params substituted>}
+    `return e` inside an inlined body is kept as {"k": "ret", "inl": <callee path>} (it leaves the helper, not the caller)."""
+    if depth <= 0:
+        return body
+
+    def go(n):
+        if isinstance(n, list):
+            return [go(x) for x in n]
+        if not isinstance(n, dict):
+            return n
+        k = n.get("k")
+        if k in ("call", "mcall") and n.get("callee") in F.fns and n["callee"] not in _stack and n["callee"] not in skip and "ctor" not in n:
+            g = F.fns[n["callee"]]
+            b = body_of(g)
+            if b is not None and _size(b, max_size + 1) <= max_size:
+                params = g["hir"]["params"]
+                args = ([n["recv"]] if k == "mcall" else []) + list(n.get("args", []))
+                if len(params) == len(args) and all(p.get("k") in ("bind", "wild") for p in params):
+                    env, lets = {}, []
+                    okp = True
+                    for p, a in zip(params, args):
+                        a2 = go(a)
+                        if p.get("k") == "wild":
+                            continue
+                        if _simple_arg(a2):
+                            env[p["id"]] = a2
+                        else:
+                            lets.append({"k": "let", "pat": p, "init": a2, "line": n.get("line")})
+                    nb = _subst(b, env)
+                    # returns of the helper stay inside it
+                    for x in walk(nb):
+                        if x.get("k") == "ret" and "inl" not in x:
+                            x["inl"] = n["callee"]
+                    nb = inline_helpers(F, nb, depth - 1, max_size, skip, _stack + (n["callee"],))
+                    return {"k": "block", "inlined": n["callee"], "stmts": lets, "expr": nb, "ty": n.get("ty"), "line": n.get("line")}
+        return {kk: go(v) for kk, v in n.items()}
+    return go(body)
